@@ -1,6 +1,568 @@
-/- C02 - property theorems (stub: not built yet) -/
-import NotationModel.Model.C02
+/-
+C02 - The verification level alone decides which failed validations reject.
+Property theorems only; model in `Model/C02.lean`, stage lemmas in `Lemmas/C02.lean`.
+-/
+import NotationModel.Lemmas.C02
+set_option linter.unusedSimpArgs false
+set_option linter.unusedVariables false
+set_option maxRecDepth 4000
 
 namespace NotationModel.C02
+
+theorem holds_error_exit (i : Input) (enf : Enf) (s : St)
+    (hs : s = {} ∨ s = { managerGets := 1 })
+    (hrej : inDomain i = true → (named i = true ∧ pluginUsable i = false)) :
+    (clausesFor i enf (s.obs false)).holds = true := by
+  have hp : inDomain i = true → pluginOK i enf = false := by
+    intro h; obtain ⟨h1, h2⟩ := hrej h; simp [pluginOK, h1, h2]
+  rcases hs with rfl | rfl <;>
+  · cases hd : inDomain i
+    · simp [clausesFor, Clauses.holds, St.obs, resultOf, enforcedFailure, hd]
+    · simp [clausesFor, Clauses.holds, St.obs, resultOf, enforcedFailure, hd, hp hd, acceptSpec]
+
+/-- type names are pairwise distinct (the regenerated constants) -/
+theorem types_distinct :
+    Facts.typeAuthenticity ≠ Facts.typeExpiry ∧ Facts.typeAuthenticity ≠ Facts.typeAuthenticTimestamp ∧
+    Facts.typeAuthenticity ≠ Facts.typeRevocation ∧ Facts.typeExpiry ≠ Facts.typeAuthenticTimestamp ∧
+    Facts.typeExpiry ≠ Facts.typeRevocation ∧ Facts.typeAuthenticTimestamp ≠ Facts.typeRevocation ∧
+    Facts.actionEnforce ≠ Facts.actionSkip := by decide
+
+theorem native_rev_facts (i : Input) (enf : Enf) (h : nativeRev i enf = true) :
+    revSkippedBy enf = false ∧ (named i && i.capRevocation) = false := by
+  unfold nativeRev capsOf at h
+  unfold named
+  cases hs : revSkippedBy enf <;> cases hp : i.pluginAttr <;> cases hc : i.capRevocation <;>
+    cases hi : i.capIdentity <;> simp_all [capRevocation, capIdentity]
+
+/-- a validation stopped the workflow: the clauses hold at that exit -/
+theorem holds_validation_exit (i : Input) (enf : Enf) (s : St)
+    (hs : (s = S1 i enf ∧ isCritical (authR i enf) = true) ∨
+          (s = S2 i enf ∧ isCritical (expR i enf) = true) ∨
+          (s = S3 i enf ∧ isCritical (tsR i enf) = true) ∨
+          (s = S4 i enf ∧ nativeRev i enf = true ∧ isCritical (revR i enf) = true)) :
+    (clausesFor i enf (s.obs false)).holds = true := by
+  obtain ⟨t1, t2, t3, t4, t5, t6, t7⟩ := types_distinct
+  have hacc : acceptSpec i enf = false := by
+    rcases hs with ⟨_, h⟩ | ⟨_, h⟩ | ⟨_, h⟩ | ⟨_, hn, h⟩
+    · simp only [isCritical, authR_action, authR_failed, nativeId_eq, Bool.and_eq_true, beq_iff_eq] at h
+      unfold acceptSpec enforced authFailedTruth
+      cases ha : askedIdentity i <;> simp_all <;> grind
+    · simp only [isCritical, expR_action, expR_failed, Bool.and_eq_true, beq_iff_eq] at h
+      simp [acceptSpec, enforced, h.1, h.2]
+    · simp only [isCritical, tsR_action, tsR_failed, Bool.and_eq_true, beq_iff_eq] at h
+      simp [acceptSpec, enforced, h.1, h.2]
+    · simp only [isCritical, revR_action, revR_failed, Bool.and_eq_true, beq_iff_eq] at h
+      rw [nativeRev_eq] at hn
+      simp only [Bool.and_eq_true, Bool.not_eq_true'] at hn
+      have har : askedRevocation i enf = false := by
+        unfold askedRevocation
+        cases hnm : named i <;> cases hcr : i.capRevocation <;> simp_all
+      simp [acceptSpec, enforced, h.1, h.2, hn.1, revFailedTruth, har]
+  rcases hs with ⟨rfl, h⟩ | ⟨rfl, h⟩ | ⟨rfl, h⟩ | ⟨rfl, hn, h⟩
+  · simp [clausesFor, Clauses.holds, St.obs, S1, S0, resultOf, enforcedFailure, h, hacc, *]
+  · simp [clausesFor, Clauses.holds, St.obs, S2, S1, S0, resultOf, enforcedFailure, h, hacc, *]
+  · simp [clausesFor, Clauses.holds, St.obs, S3, S1, S0, resultOf, enforcedFailure, h, hacc, *]
+  · obtain ⟨n1, n2⟩ := native_rev_facts i enf hn
+    simp [clausesFor, Clauses.holds, St.obs, S4, S3, S1, S0, resultOf, enforcedFailure, h, hn, n1, n2, hacc, *]
+
+/-- common tail of the plugin-stage case analysis -/
+macro "c02_finish" : tactic => `(tactic|
+  (simp [clausesFor, Clauses.holds, St.obs, resultOf, enforcedFailure, pluginOK, pluginExecuted,
+        askedIdentity, askedRevocation, authFailedTruth, revFailedTruth, isCritical, nativeId, capsOf,
+        capIdentity, capRevocation, knownFinding, named, *] at *))
+
+theorem toVerify_eq (i : Input) (enf : Enf) (hpa : i.pluginAttr = .named) :
+    toVerify i enf = (if i.capIdentity then [capIdentity] else []) ++
+                     (if i.capRevocation && !revSkippedBy enf then [capRevocation] else []) := by
+  unfold toVerify capsOf
+  cases i.capIdentity <;> cases i.capRevocation <;> cases revSkippedBy enf <;>
+    simp [hpa, capIdentity, capRevocation]
+
+/-- state in which the plugin is executed -/
+def S5 (i : Input) (enf : Enf) : St :=
+  { S4 i enf with pluginVerifyCaps := some (toVerify i enf),
+                  pluginAttrsToProcess := some (sortKeys (i.extAttrs.map (·.key))) }
+
+theorem pluginStage_named (i : Input) (enf : Enf) (hpa : i.pluginAttr = .named) :
+    pluginStage i enf (S4 i enf) =
+      if (toVerify i enf).isEmpty then .ok (S4 i enf)
+      else if i.pluginCallError then .error (S5 i enf)
+      else if i.extAttrs.any (fun a => !i.processed.contains a.key) then .error (S5 i enf)
+      else respondCaps i enf (toVerify i enf) (S5 i enf) := by
+  unfold pluginStage processResponse S5
+  simp only [hpa, beq_self_eq_true, if_true]
+
+/-- evaluate the response loop on the explicit state -/
+macro "c02_resp" : tactic => `(tactic|
+  (simp [respondCaps, respondCap, S5, S4, S3, S1, S0, capIdentity, capRevocation, failAuthenticity, authResult,
+     isCritical, *]))
+
+/-- evaluate the clauses on an explicit final state -/
+macro "c02_leaf" : tactic => `(tactic|
+  (simp_all [clausesFor, Clauses.holds, St.obs, resultOf, enforcedFailure, pluginOK, pluginExecuted,
+      askedIdentity, askedRevocation, authFailedTruth, revFailedTruth, isCritical, capIdentity, capRevocation,
+      knownFinding, acceptSpec, enforced, S5, S4, S3, S1, S0]))
+
+/-- hypotheses shared by the four shapes of the capability list -/
+structure Ctx (i : Input) (enf : Enf) : Prop where
+  hpa : i.pluginAttr = .named
+  h1 : isCritical (authR i enf) = false
+  h2 : isCritical (expR i enf) = false
+  h3 : isCritical (tsR i enf) = false
+  h4 : (nativeRev i enf && isCritical (revR i enf)) = false
+  hdom : inDomain i = true → pluginUsable i = true
+  hF : knownFinding i enf = false
+
+set_option maxHeartbeats 1600000 in
+theorem holds_tv_nil (i : Input) (enf : Enf) (c : Ctx i enf) (htv : toVerify i enf = [])
+    (hc : (i.capIdentity = false ∧ i.capRevocation = false) ∨
+          (i.capIdentity = false ∧ i.capRevocation = true ∧ revSkippedBy enf = true)) :
+    (clausesFor i enf ((S4 i enf).obs true)).holds = true := by
+  obtain ⟨hpa, h1, h2, h3, h4, hdom, hF⟩ := c
+  obtain ⟨t1, t2, t3, t4, t5, t6, t7⟩ := types_distinct
+  have hnamed : named i = true := by simp [named, hpa]
+  by_cases hcR : enf.get Facts.typeRevocation = Facts.actionEnforce <;>
+  rcases hc with ⟨hci, hcr⟩ | ⟨hci, hcr, hs⟩
+  all_goals
+    have hnid : nativeId i = true := by simp [nativeId, capsOf, hpa, hci, hcr, capIdentity, capRevocation]
+    have hnr : nativeRev i enf = (!revSkippedBy enf && !i.capRevocation) := by
+      simp [nativeRev, capsOf, hpa, hci, hcr, capIdentity, capRevocation]
+    simp only [isCritical, authR_action, authR_failed, expR_action, expR_failed, tsR_action, tsR_failed,
+      revR_action, revR_failed, hnid, hnr] at h1 h2 h3 h4
+    cases hs' : revSkippedBy enf <;> c02_leaf
+    all_goals grind
+
+set_option maxHeartbeats 3200000 in
+theorem holds_tv_exec (i : Input) (enf : Enf) (c : Ctx i enf)
+    (hc : (i.capIdentity = true ∧ i.capRevocation = false ∧ revSkippedBy enf = false) ∨
+          (i.capIdentity = true ∧ i.capRevocation = false ∧ revSkippedBy enf = true) ∨
+          (i.capIdentity = true ∧ i.capRevocation = true ∧ revSkippedBy enf = true) ∨
+          (i.capIdentity = false ∧ i.capRevocation = true ∧ revSkippedBy enf = false) ∨
+          (i.capIdentity = true ∧ i.capRevocation = true ∧ revSkippedBy enf = false)) :
+    match (if i.pluginCallError then Except.error (S5 i enf)
+           else if i.extAttrs.any (fun a => !i.processed.contains a.key) then .error (S5 i enf)
+           else respondCaps i enf (toVerify i enf) (S5 i enf)) with
+    | .ok s => (clausesFor i enf (s.obs true)).holds = true
+    | .error s => (clausesFor i enf (s.obs false)).holds = true := by
+  obtain ⟨hpa, h1, h2, h3, h4, hdom, hF⟩ := c
+  obtain ⟨t1, t2, t3, t4, t5, t6, t7⟩ := types_distinct
+  have hnamed : named i = true := by simp [named, hpa]
+  have htv := toVerify_eq i enf hpa
+  by_cases hcA : enf.get Facts.typeAuthenticity = Facts.actionEnforce <;>
+  by_cases hcR : enf.get Facts.typeRevocation = Facts.actionEnforce <;>
+  rcases hc with ⟨hci, hcr, hs⟩ | ⟨hci, hcr, hs⟩ | ⟨hci, hcr, hs⟩ | ⟨hci, hcr, hs⟩ | ⟨hci, hcr, hs⟩
+  all_goals
+    have hnid : nativeId i = !i.capIdentity := by
+      simp [nativeId, capsOf, hpa, hci, hcr, capIdentity, capRevocation]
+    have hnr : nativeRev i enf = (!revSkippedBy enf && !i.capRevocation) := by
+      simp [nativeRev, capsOf, hpa, hci, hcr, capIdentity, capRevocation]
+    simp only [isCritical, authR_action, authR_failed, expR_action, expR_failed, tsR_action, tsR_failed,
+      revR_action, revR_failed, hnid, hnr] at h1 h2 h3 h4
+    simp [hci, hcr, hs] at htv
+    cases hce : i.pluginCallError
+    · cases hup : i.extAttrs.any (fun a => !i.processed.contains a.key)
+      · cases hvi : i.verdictIdentity <;> cases hvr : i.verdictRevocation <;>
+          c02_resp <;> c02_leaf <;> grind
+      · c02_resp <;> c02_leaf <;> grind
+    · c02_resp <;> c02_leaf <;> grind
+
+/-- plugin named: the clauses hold at every exit of the plugin stage -/
+theorem holds_plugin_named (i : Input) (enf : Enf) (c : Ctx i enf) :
+    match pluginStage i enf (S4 i enf) with
+    | .ok s => (clausesFor i enf (s.obs true)).holds = true
+    | .error s => (clausesFor i enf (s.obs false)).holds = true := by
+  rw [pluginStage_named i enf c.hpa]
+  have htv := toVerify_eq i enf c.hpa
+  cases hci : i.capIdentity <;> cases hcr : i.capRevocation <;> cases hs : revSkippedBy enf <;>
+    simp [hci, hcr, hs] at htv
+  case false.false.false => simp only [htv, List.isEmpty, if_true]; exact holds_tv_nil i enf c htv (Or.inl ⟨hci, hcr⟩)
+  case false.false.true => simp only [htv, List.isEmpty, if_true]; exact holds_tv_nil i enf c htv (Or.inl ⟨hci, hcr⟩)
+  case false.true.true => simp only [htv, List.isEmpty, if_true]; exact holds_tv_nil i enf c htv (Or.inr ⟨hci, hcr, hs⟩)
+  all_goals
+    have hne : (toVerify i enf).isEmpty = false := by simp [htv]
+    simp only [hne, Bool.false_eq_true, if_false]
+    apply holds_tv_exec i enf c
+    simp [hci, hcr, hs]
+
+/-- all validations passed without a critical failure: the clauses hold at every exit of the
+plugin stage (outside the known finding) -/
+theorem holds_plugin_stage (i : Input) (enf : Enf)
+    (h1 : isCritical (authR i enf) = false) (h2 : isCritical (expR i enf) = false)
+    (h3 : isCritical (tsR i enf) = false)
+    (h4 : (nativeRev i enf && isCritical (revR i enf)) = false)
+    (hdom : inDomain i = true → (named i = false ∨ pluginUsable i = true))
+    (hF : knownFinding i enf = false) :
+    match pluginStage i enf (S4 i enf) with
+    | .ok s => (clausesFor i enf (s.obs true)).holds = true
+    | .error s => (clausesFor i enf (s.obs false)).holds = true := by
+  obtain ⟨t1, t2, t3, t4, t5, t6, t7⟩ := types_distinct
+  cases hpa : i.pluginAttr
+  case named =>
+    exact holds_plugin_named i enf ⟨hpa, h1, h2, h3, h4, (fun hd => by
+        have hn : named i = true := by simp [named, hpa]
+        rcases hdom hd with h | h
+        · simp [hn] at h
+        · exact h), hF⟩
+  all_goals
+    unfold pluginStage
+    simp only [hpa, reduceCtorEq, beq_iff_eq, if_false]
+    have hnamed : named i = false := by simp [named, hpa]
+    have hcaps : capsOf i = [] := by simp [capsOf, hpa]
+    have hpo : pluginOK i enf = !i.extAttrs.any (·.critical) := by simp [pluginOK, hnamed]
+    have hai : askedIdentity i = false := by simp [askedIdentity, hnamed]
+    have har : askedRevocation i enf = false := by simp [askedRevocation, hnamed]
+    have hnid : nativeId i = true := by simp [nativeId, hcaps]
+    simp only [isCritical, authR_action, authR_failed, expR_action, expR_failed, tsR_action, tsR_failed,
+      revR_action, revR_failed, hnid, Bool.true_and] at h1 h2 h3 h4
+    cases hs : revSkippedBy enf <;> cases hc : i.extAttrs.any (·.critical) <;>
+      simp [clausesFor, Clauses.holds, St.obs, S4, S3, S1, S0, resultOf, enforcedFailure, nativeRev, hcaps,
+        hs, hc, hpo, hnamed, authFailedTruth, revFailedTruth, hai, har, isCritical, hnid, acceptSpec, enforced,
+        knownFinding, *] at h4 ⊢
+    all_goals by_cases hh : enf.get Facts.typeRevocation = Facts.actionEnforce <;> simp_all
+    all_goals grind
+
+/-- the property's clauses hold of the model of `processSignature` for every scenario outside
+the known finding, for *every* enforcement map (not only the 24 reachable ones) -/
+theorem holds_process (i : Input) (enf : Enf) (hF : knownFinding i enf = false) :
+    (clausesFor i enf (process i enf)).holds = true := by
+  unfold process
+  rcases discover_cases i with hd | hd | hd
+  · -- discovery passed
+    have hdom : inDomain i = true → (named i = false ∨ pluginUsable i = true) := by
+      intro h
+      simp only [inDomain, Bool.and_eq_true, Bool.or_eq_true, beq_iff_eq] at h
+      exact (discover_ok_iff i h.1.1.2 h.1.2).1 hd
+    rw [processE_ok i enf hd, validations_closed]
+    by_cases h1 : isCritical (authR i enf) = true
+    · simp only [h1, if_true, bind, Except.bind]
+      exact holds_validation_exit i enf _ (Or.inl ⟨rfl, h1⟩)
+    · rw [if_neg h1]
+      by_cases h2 : isCritical (expR i enf) = true
+      · simp only [h2, if_true, bind, Except.bind]
+        exact holds_validation_exit i enf _ (Or.inr (Or.inl ⟨rfl, h2⟩))
+      · rw [if_neg h2]
+        by_cases h3 : isCritical (tsR i enf) = true
+        · simp only [h3, if_true, bind, Except.bind]
+          exact holds_validation_exit i enf _ (Or.inr (Or.inr (Or.inl ⟨rfl, h3⟩)))
+        · rw [if_neg h3]
+          by_cases h4 : (nativeRev i enf && isCritical (revR i enf)) = true
+          · simp only [h4, if_true, bind, Except.bind]
+            simp only [Bool.and_eq_true] at h4
+            exact holds_validation_exit i enf _ (Or.inr (Or.inr (Or.inr ⟨rfl, h4.1, h4.2⟩)))
+          · rw [if_neg h4]
+            simp only [bind, Except.bind]
+            have := holds_plugin_stage i enf (by simpa using h1) (by simpa using h2) (by simpa using h3)
+              (by simpa using h4) hdom hF
+            split at this <;> simp_all
+  all_goals
+    have hrej : inDomain i = true → (named i = true ∧ pluginUsable i = false) := by
+      intro h
+      simp only [inDomain, Bool.and_eq_true, Bool.or_eq_true, beq_iff_eq] at h
+      have hiff := discover_ok_iff i h.1.1.2 h.1.2
+      have hne : ¬ discover i {} = .ok (S0 i) := by rw [hd]; simp
+      have := mt hiff.2 hne
+      simp only [not_or] at this
+      exact ⟨by simpa using this.1, by simpa using this.2⟩
+    rw [processE_err i enf _ hd]
+    first
+      | exact holds_error_exit i enf _ (Or.inl rfl) hrej
+      | exact holds_error_exit i enf _ (Or.inr rfl) hrej
+
+/-! ### property theorems -/
+
+/-- **C02, the whole property**: every clause of `Holds` is true of the model's behaviour for
+every scenario outside the known finding F-C02b. -/
+theorem model_holds (i : Input) (hF : knownFinding i (enfOf i) = false) : Holds i (run i) = true := by
+  unfold Holds clauses run
+  cases heff : effective i.level i.override with
+  | error e =>
+    have hd : inDomain i = false := by simp [inDomain, levelOK, heff]
+    simp [clausesFor, Clauses.holds, St.obs, resultOf, enforcedFailure, hd]
+  | ok p =>
+    obtain ⟨nm, enf⟩ := p
+    have henf : enfOf i = enf := by simp [enfOf, heff]
+    rw [henf] at hF ⊢
+    exact holds_process i enf hF
+
+/-- the known finding is real in the model: a usable plugin that is never executed lets a critical
+extended attribute through (this is what the unchanged code does; KNOWN_FINDINGS.txt F-C02b) -/
+def findingWitness : Input :=
+  { level := "strict", override := [("revocation", "skip")], pluginAttr := .named, minVerAttr := .absent,
+    extAttrs := [{ key := "com.example.mustUnderstand", critical := true }], pluginState := .installed,
+    pluginVersion := .ok, capIdentity := false, capRevocation := true, trust := .found,
+    identityMatch := true, expired := false, timestampOk := true, revocation := .ok,
+    pluginCallError := false, processed := [], verdictIdentity := .success, verdictRevocation := .success }
+
+theorem finding_counterexample :
+    knownFinding findingWitness (enfOf findingWitness) = true ∧ Holds findingWitness (run findingWitness) = false := by
+  decide
+
+/-- reading of the main clause: inside the property's domain and outside the known finding, the
+signature is accepted iff no reported result with action enforce failed and the plugin conditions hold -/
+theorem reject_iff (i : Input) (hd : inDomain i = true) (hF : knownFinding i (enfOf i) = false) :
+    (run i).accepted = true ↔
+      ((run i).results.all (fun r => !(r.action == Facts.actionEnforce && r.failed)) = true ∧ pluginOK i (enfOf i) = true) := by
+  have := model_holds i hF
+  simp only [Holds, clauses, clausesFor, Clauses.holds, List.all_cons, Bool.and_eq_true] at this
+  have h1 := this.1
+  simp only [hd, Bool.not_true, Bool.false_or, beq_iff_eq] at h1
+  rw [h1]
+  simp [enforcedFailure, isCritical, List.all_eq_not_any_not]
+
+/-- every reported result carries the action the level assigns to its type -/
+theorem results_carry_level_action (i : Input) (hF : knownFinding i (enfOf i) = false) :
+    ∀ r ∈ (run i).results, r.action = (enfOf i).get r.type := by
+  have := model_holds i hF
+  simp only [Holds, clauses, clausesFor, Clauses.holds, List.all_cons, Bool.and_eq_true] at this
+  simpa using this.2.2.1
+
+/-- a skipped revocation validation is not performed at all, natively or by plugin -/
+theorem skip_revocation_not_performed (i : Input) (hF : knownFinding i (enfOf i) = false)
+    (hs : revSkippedBy (enfOf i) = true) :
+    (run i).validatorCalls = 0 ∧ (run i).results.all (fun r => r.type != Facts.typeRevocation) = true ∧
+    ∀ caps, (run i).pluginVerifyCaps = some caps → capRevocation ∉ caps := by
+  have := model_holds i hF
+  simp only [Holds, clauses, clausesFor, Clauses.holds, List.all_cons, Bool.and_eq_true] at this
+  have h := this.2.2.2.2.2.2.2.1
+  simp only [hs, Bool.not_true, Bool.false_or, Bool.and_eq_true, beq_iff_eq] at h
+  refine ⟨h.1.1, ?_, ?_⟩
+  · have := h.1.2
+    simp [resultOf] at this
+    simpa using this
+  · intro caps hc
+    have := h.2
+    simp [hc] at this
+    exact this
+
+/-- a revocation capability declared by the named plugin replaces the native validator -/
+theorem capability_replaces_native (i : Input) (hF : knownFinding i (enfOf i) = false)
+    (hn : named i = true) (hc : i.capRevocation = true) : (run i).validatorCalls = 0 := by
+  have := model_holds i hF
+  simp only [Holds, clauses, clausesFor, Clauses.holds, List.all_cons, Bool.and_eq_true] at this
+  have h := this.2.2.2.2.2.2.2.2.1
+  simpa [hn, hc] using h
+
+/-! ### monotonicity -/
+
+/-- `enf'` is pointwise weaker than `enf`: whatever `enf'` enforces `enf` enforces too, and both
+skip revocation or neither does -/
+def Weaker (enf enf' : Enf) : Prop :=
+  (∀ t, enforced enf' t = true → enforced enf t = true) ∧ revSkippedBy enf = revSkippedBy enf'
+
+theorem pluginOK_congr (i : Input) (enf enf' : Enf) (h : revSkippedBy enf = revSkippedBy enf') :
+    pluginOK i enf = pluginOK i enf' ∧ revFailedTruth i enf = revFailedTruth i enf' ∧
+    knownFinding i enf = knownFinding i enf' := by
+  simp [pluginOK, revFailedTruth, knownFinding, pluginExecuted, askedRevocation, h]
+
+theorem acceptSpec_mono (i : Input) (enf enf' : Enf) (hw : Weaker enf enf')
+    (h : acceptSpec i enf = true) : acceptSpec i enf' = true := by
+  obtain ⟨he, hs⟩ := hw
+  obtain ⟨hp, hr, _⟩ := pluginOK_congr i enf enf' hs
+  unfold acceptSpec at h ⊢
+  rw [← hp, ← hr, ← hs]
+  have a1 := he Facts.typeAuthenticity
+  have a2 := he Facts.typeExpiry
+  have a3 := he Facts.typeAuthenticTimestamp
+  have a4 := he Facts.typeRevocation
+  revert h a1 a2 a3 a4
+  cases enforced enf Facts.typeAuthenticity <;> cases enforced enf' Facts.typeAuthenticity <;>
+  cases enforced enf Facts.typeExpiry <;> cases enforced enf' Facts.typeExpiry <;>
+  cases enforced enf Facts.typeAuthenticTimestamp <;> cases enforced enf' Facts.typeAuthenticTimestamp <;>
+  cases enforced enf Facts.typeRevocation <;> cases enforced enf' Facts.typeRevocation <;> simp <;> grind
+
+/-- **C02, monotonicity**: weakening the level (enforce -> log, same skipped types) never turns an
+accepted signature into a rejected one - for all enforcement maps, not only the preset ones. -/
+theorem accept_mono (i : Input) (enf enf' : Enf) (hd : inDomain i = true)
+    (hF : knownFinding i enf = false) (hw : Weaker enf enf')
+    (h : (process i enf).accepted = true) : (process i enf').accepted = true := by
+  have hF' : knownFinding i enf' = false := by rw [← (pluginOK_congr i enf enf' hw.2).2.2]; exact hF
+  have c1 := holds_process i enf hF
+  have c2 := holds_process i enf' hF'
+  simp only [clausesFor, Clauses.holds, List.all_cons, Bool.and_eq_true] at c1 c2
+  have e1 := c1.2.1
+  have e2 := c2.2.1
+  simp only [hd, hF, hF', Bool.not_true, Bool.false_or, beq_iff_eq] at e1 e2
+  rw [e2]
+  exact acceptSpec_mono i enf enf' hw (by rw [← e1]; exact h)
+
+/-! ### levels (over the tables regenerated from trustpolicy.go) -/
+
+/-- the tables have the expected shape: five types, three actions, four levels in order -/
+theorem level_tables_shape :
+    Facts.validationTypes = [Facts.typeIntegrity, Facts.typeAuthenticity, Facts.typeAuthenticTimestamp,
+      Facts.typeExpiry, Facts.typeRevocation] ∧
+    Facts.validationActions = [Facts.actionEnforce, Facts.actionLog, Facts.actionSkip] ∧
+    Facts.levels.map (·.1) = ["strict", "permissive", "audit", "skip"] ∧
+    (Facts.levels.all fun l => Facts.validationTypes.all fun t => Facts.validationActions.contains (Enf.get l.2 t)) = true := by
+  decide
+
+/-- every preset level other than skip enforces integrity; skip skips everything -/
+theorem presets_enforce_integrity :
+    (Facts.levels.all fun l => l.1 == "skip" || Enf.get l.2 Facts.typeIntegrity == Facts.actionEnforce) = true ∧
+    (Facts.levels.all fun l => l.1 != "skip" ||
+      Facts.validationTypes.all fun t => Enf.get l.2 t == Facts.actionSkip) = true := by
+  decide
+
+/-- strict is stronger than permissive, permissive stronger than audit, pointwise, and none of
+the three skips revocation (`Weaker` on the regenerated tables) -/
+theorem presets_ordered :
+    ∀ e1 e2 e3, Facts.levels.lookup "strict" = some e1 → Facts.levels.lookup "permissive" = some e2 →
+      Facts.levels.lookup "audit" = some e3 →
+      (Facts.validationTypes.all fun t =>
+        (!enforced e2 t || enforced e1 t) && (!enforced e3 t || enforced e2 t)) = true ∧
+      revSkippedBy e1 = false ∧ revSkippedBy e2 = false ∧ revSkippedBy e3 = false := by
+  intro e1 e2 e3 h1 h2 h3
+  simp only [Facts.levels, List.lookup] at h1 h2 h3
+  simp at h1 h2 h3
+  subst h1 h2 h3
+  decide
+
+theorem lookup_map_set (e : Enf) (t a t' : String) :
+    (e.map (fun p => if p.1 == t then (t, a) else p)).lookup t' =
+      if t' = t then (if e.any (·.1 == t) then some a else none) else e.lookup t' := by
+  induction e with
+  | nil => simp
+  | cons p rest ih =>
+    simp only [List.map_cons, List.any_cons]
+    by_cases hp : p.1 = t
+    · subst hp
+      by_cases ht : t' = p.1
+      · subst ht; simp [List.lookup]
+      · have h1 : (t' == p.1) = false := by simp [ht]
+        simp only [beq_self_eq_true, if_true, List.lookup, h1, ih, ht, if_false]
+    · have h0 : (p.1 == t) = false := by simp [hp]
+      simp only [h0, Bool.false_eq_true, if_false, Bool.false_or]
+      by_cases ht : t' = p.1
+      · subst ht
+        simp [List.lookup, hp]
+      · have h1 : (t' == p.1) = false := by simp [ht]
+        cases hpp : p with
+        | mk k v =>
+          simp only [hpp] at h1
+          simp only [List.lookup, h1, ih]
+
+theorem lookup_append_single (e : Enf) (t a t' : String) (h : e.any (·.1 == t) = false) :
+    (e ++ [(t, a)]).lookup t' = if t' = t then some a else e.lookup t' := by
+  induction e with
+  | nil => by_cases ht : t' = t <;> simp [List.lookup, ht]
+  | cons p rest ih =>
+    simp only [List.any_cons, Bool.or_eq_false_iff] at h
+    cases hpp : p with
+    | mk k v =>
+      simp only [hpp] at h
+      have hk : k ≠ t := by simpa using h.1
+      by_cases ht : t' = k
+      · subst ht
+        simp [List.lookup, hk]
+      · have h1 : (t' == k) = false := by simp [ht]
+        simp only [List.cons_append, List.lookup, h1, ih h.2]
+
+theorem Enf.get_set (e : Enf) (t a t' : String) :
+    (e.set t a).get t' = if t' = t then a else e.get t' := by
+  unfold Enf.set Enf.get
+  by_cases h : e.any (·.1 == t) = true
+  · simp only [h, if_true, lookup_map_set]
+    by_cases ht : t' = t <;> simp [ht]
+  · have h' : e.any (·.1 == t) = false := Bool.eq_false_iff.2 h
+    simp only [h', Bool.false_eq_true, if_false, lookup_append_single e t a t' h']
+    by_cases ht : t' = t <;> simp [ht]
+
+/-- `GetVerificationLevel`: whatever overrides are given (any list, any order, duplicates), a
+level that is accepted and is not the skip preset enforces integrity; only revocation can be skip -/
+theorem effective_enforces_integrity (level : String) (override : List (String × String))
+    (nm : String) (enf : Enf) (h : effective level override = .ok (nm, enf)) (hns : nm ≠ "skip") :
+    enf.get Facts.typeIntegrity = Facts.actionEnforce := by
+  unfold effective at h
+  split at h
+  · simp at h
+  · split at h
+    · simp at h
+    · rename_i name enf0 hfl
+      have hbase : name ≠ "skip" → enf0.get Facts.typeIntegrity = Facts.actionEnforce := by
+        intro hn
+        unfold findLevel at hfl
+        have := presets_enforce_integrity.1
+        have hmem : (name, enf0) ∈ Facts.levels := by
+          have := List.mem_of_getLast? hfl
+          exact (List.mem_filter.1 this).1
+        have := List.all_eq_true.1 this (name, enf0) hmem
+        simp at this
+        rcases this with h1 | h1
+        · exact absurd h1 hn
+        · exact h1
+      split at h
+      · simp only [Except.ok.injEq, Prod.mk.injEq] at h
+        obtain ⟨rfl, rfl⟩ := h
+        exact hbase hns
+      · split at h
+        · simp at h
+        · rename_i hnskip
+          have hname : name ≠ "skip" := by simpa using hnskip
+          -- the fold keeps the invariant
+          have inv : ∀ (ov : List (String × String)) (acc : Enf),
+              acc.get Facts.typeIntegrity = Facts.actionEnforce →
+              ∀ r, ov.foldl applyOverride (.ok acc) = .ok r → r.get Facts.typeIntegrity = Facts.actionEnforce := by
+            intro ov
+            induction ov with
+            | nil => intro acc ha r hr; simp at hr; subst hr; exact ha
+            | cons kv rest ih =>
+              intro acc ha r hr
+              simp only [List.foldl_cons] at hr
+              cases hstep : applyOverride (.ok acc) kv with
+              | error e =>
+                rw [hstep] at hr
+                have : ∀ l : List (String × String), l.foldl applyOverride (.error e) = .error e := by
+                  intro l; induction l with
+                  | nil => rfl
+                  | cons x xs ihx => simp [List.foldl_cons, applyOverride, ihx]
+                rw [this] at hr; simp at hr
+              | ok acc' =>
+                rw [hstep] at hr
+                refine ih acc' ?_ r hr
+                unfold applyOverride at hstep
+                simp only at hstep
+                split at hstep
+                · simp at hstep
+                · split at hstep
+                  · simp at hstep
+                  · split at hstep
+                    · simp at hstep
+                    · rename_i hni
+                      split at hstep
+                      · simp at hstep
+                      · simp only [Except.ok.injEq] at hstep
+                        subst hstep
+                        rw [Enf.get_set]
+                        have : Facts.typeIntegrity ≠ kv.1 := by
+                          intro e; apply hni; simp [e]
+                        simp [this, ha]
+          split at h
+          · simp at h
+          · rename_i enf' hfold
+            simp only [Except.ok.injEq, Prod.mk.injEq] at h
+            obtain ⟨_, rfl⟩ := h
+            exact inv override enf0 (hbase hname) _ hfold
+
+/-! ### non-vacuity -/
+
+/-- a scenario inside the domain, outside the finding, accepted with a logged failure -/
+def sampleAccepted : Input :=
+  { level := "permissive", override := [], pluginAttr := .named, minVerAttr := .valid,
+    extAttrs := [{ key := "com.example.a", critical := true }], pluginState := .installed,
+    pluginVersion := .ok, capIdentity := true, capRevocation := true, trust := .found,
+    identityMatch := false, expired := true, timestampOk := true, revocation := .revoked,
+    pluginCallError := false, processed := ["com.example.a"], verdictIdentity := .success,
+    verdictRevocation := .failure }
+
+example : inDomain sampleAccepted = true ∧ knownFinding sampleAccepted (enfOf sampleAccepted) = false ∧
+    (run sampleAccepted).accepted = true ∧ (run sampleAccepted).validatorCalls = 0 ∧
+    (run sampleAccepted).results.length = 4 := by decide
+
+/-- the same scenario under strict is rejected (revocation verdict of the plugin is enforced) -/
+example : (run { sampleAccepted with level := "strict" }).accepted = false := by decide
+
+/-- `Holds` is not trivially true: claiming acceptance of the strict run is refuted -/
+example : Holds { sampleAccepted with level := "strict" }
+    { (run { sampleAccepted with level := "strict" }) with accepted := true } = false := by decide
 
 end NotationModel.C02
